@@ -526,6 +526,12 @@ func importTar(in io.ReaderAt) (*tarFile, error) {
 }
 
 func moveRec(name string, in *tarFile, out *tarFile, picked map[string]struct{}) error {
+	return moveRecVisiting(name, in, out, picked, map[string]struct{}{})
+}
+
+// moveRecVisiting is moveRec that tracks the names on the current recursion path so that a
+// cycle of hardlinks is reported as an error instead of recursing forever.
+func moveRecVisiting(name string, in *tarFile, out *tarFile, picked map[string]struct{}, visiting map[string]struct{}) error {
 	name = cleanEntryName(name)
 	if name == "" { // root directory. stop recursion.
 		if e, ok := in.get(name); ok {
@@ -546,12 +552,18 @@ func moveRec(name string, in *tarFile, out *tarFile, picked map[string]struct{})
 		return fmt.Errorf("file: %q: %w", name, errNotFound)
 	}
 
+	if _, ok := visiting[name]; ok {
+		return fmt.Errorf("file: %q: hardlinks make a cycle", name)
+	}
+	visiting[name] = struct{}{}
+	defer delete(visiting, name)
+
 	parent, _ := path.Split(strings.TrimSuffix(name, "/"))
-	if err := moveRec(parent, in, out, picked); err != nil {
+	if err := moveRecVisiting(parent, in, out, picked, visiting); err != nil {
 		return err
 	}
 	if e, ok := in.get(name); ok && e.header.Typeflag == tar.TypeLink {
-		if err := moveRec(e.header.Linkname, in, out, picked); err != nil {
+		if err := moveRecVisiting(e.header.Linkname, in, out, picked, visiting); err != nil {
 			return err
 		}
 	}
